@@ -16,6 +16,7 @@ from .. import cfront as C
 from ..pyfront import dotted, call_name, kwarg, params, src, walk_no_nested, const
 
 EXPLANATION = (
+    'The numpy reference functions behind opt=False (_distance_mic, _distance_mic_t, _displacement_mic, _displacement) are evaluated on symbolic frames with `round` and the norm opaque and compared with the documented scheme; every dispatcher is evaluated on a model trajectory over periodic x cell x opt; the C kernels are decided by value numbering.  Further: '
     "The minimum-image machinery is decided structurally on three layers: the Python dispatchers (same periodic predicate, "
     "orthogonality from the cell angles, box handed over in the same orientation to the optimised and the reference path), the "
     "Cython wrappers (orthogonal -> *_mic, otherwise *_mic_triclinic; every argument of every extern call is matched against the "
